@@ -93,6 +93,29 @@ theorem refresh_first (name : BList) (ty cls : Nat) (flush : Bool) (ttl : Nat) (
   rw [(refresh_schedule name ty cls flush ttl rd t httl _).1]
   exact specRun_first t ttl pre now post hpre hnow
 
+/-- **Every mark is honoured**: an observer that looks exactly at 80, 85, 90 and 95 % of the
+    lifetime (the daemon arms its timer for the `refresh` field, C12) gets a re-query each
+    time - four in all, for every TTL ≥ 1 s and reception time; a look in between gets none. -/
+theorem refresh_punctual (name : BList) (ty cls : Nat) (flush : Bool) (ttl : Nat) (rd : RData) (t : Nat)
+    (httl : 1 ≤ ttl) :
+    (runRefresh (Record.new name ty cls flush ttl rd t)
+      [t + 800 * ttl, t + 850 * ttl, t + 850 * ttl, t + 900 * ttl, t + 950 * ttl, t + 999 * ttl]).1 =
+      [true, true, false, true, true, false] := by
+  rw [(refresh_schedule name ty cls flush ttl rd t httl _).1]
+  have h0 : specFires t ttl 0 (t + 800 * ttl) = true := by
+    simp [specFires, markAt, markPct, expTime]; omega
+  have h1 : specFires t ttl 1 (t + 850 * ttl) = true := by
+    simp [specFires, markAt, markPct, expTime]; omega
+  have h1' : specFires t ttl 2 (t + 850 * ttl) = false := by
+    simp [specFires, markAt, markPct, expTime]; omega
+  have h2 : specFires t ttl 2 (t + 900 * ttl) = true := by
+    simp [specFires, markAt, markPct, expTime]; omega
+  have h3 : specFires t ttl 3 (t + 950 * ttl) = true := by
+    simp [specFires, markAt, markPct, expTime]; omega
+  have h4 : specFires t ttl 4 (t + 999 * ttl) = false := by
+    simp [specFires]
+  simp [specRun, h0, h1, h1', h2, h3, h4]
+
 /-- The marks are 80, 85, 90 and 95 % of the lifetime, then its end. -/
 theorem marks (t ttl : Nat) :
     markAt t ttl 0 = t + 800 * ttl ∧ markAt t ttl 1 = t + 850 * ttl ∧ markAt t ttl 2 = t + 900 * ttl ∧
